@@ -7,7 +7,8 @@ EXPLANATION = (
     "split, tail to keyword-only, *args removed; keyword-only -> removed / default replaced; otherwise ValueError "
     "without **kwargs; every accepted name recorded), coherence of the name index with the list it is derived from "
     "(order independence), positional consumption (order, induction-variable trip count, exhaustion raises unless "
-    "*args), kinds of converted parameters, hide flags that only remove and are bound name-preservingly by mask(). "
+    "*args), kinds of converted parameters, hide flags that only remove and are bound name-preservingly by mask(), and no raise "
+    "decision of _mask depends on a hide flag (C03.R8). "
     "It does NOT decide exactness over all calls nor mask(mask(s,n),m) == mask(s,n+m) as a value law.")
 ASSUMPTIONS = [
     "the per-name table of DESIGN.md section 3 (C03) and table B9 are the trusted base",
